@@ -3,7 +3,7 @@ Spec: specs/Http/Forwarder.tla.  Binding: replay of TLC-generated behaviours aga
 httpproxy.ServerHandle(...).Proceed() with a scripted client and a scripted origin on netio pipes
 inside testing/synctest (drivers/c16), plus the message lattice (CASE lines of MCFilter) pushed
 through the same connection one exchange per case."""
-import json, os, random, re, itertools
+import json, os, random, re, itertools, time
 import vlib
 from props import common
 
@@ -96,6 +96,7 @@ CTRL_REQS = [
     BADREQ,
     req(h="", hs=("ua",)),                                               # no Host
     req(m="POST", hs=(), bd="nomtrailer"),                               # no User-Agent, nominated trailer
+    req(m="CONNECT", h="a", hs=("ua",)),                                 # CONNECT to the very authority of the plain requests
 ]
 CTRL_RESPS = [
     PLAIN_RESP,
@@ -107,7 +108,6 @@ CTRL_RESPS = [
     resp(st="204", bd="none"),
 ]
 ALL_CLOSERS = '{"cclose","cabort","ow","orw"}'
-INVS = "TypeOK QueueBound NoDrop NothingBeforeAuth Filtered InOrder WrongHostNeverSent CloseEnds InterimNotFinal Terminates HalfTerminates"
 
 
 def consts(reqs, resps, cap, nreq, nresp, auth, sync, emit, closers=ALL_CLOSERS, constraint=""):
@@ -149,7 +149,7 @@ def run(tier, seed, replay):
     rnd.shuffle(rl)
     rnd.shuffle(sl)
     lat = '{"cclose","ow"}'
-    small_reqs = CTRL_REQS[:7] + CTRL_REQS[9:]
+    small_reqs = [CTRL_REQS[i] for i in (0, 1, 2, 4, 10, 6, 9, 5, 3)]
     jobs = []   # (name, constants, kind, options)
 
     # (1) design, exhaustive, the environment interleaves freely with the proxy's steps; queue scaled to 2
@@ -165,18 +165,21 @@ def run(tier, seed, replay):
     jobs.append(("replay_auth", consts(auth_reqs if big else auth_reqs[:6], [PLAIN_RESP], cap, 3, 1, "{TRUE}", True, True, closers=lat), "graph", dict(max_len=30)))
     #      and long runs of refused requests before the accepted one
     jobs.append(("replay_auth_deep", consts([PLAIN_REQ, req(au="bad", hs=("ua",)), req(m="POST", au="none", hs=("ua",), bd="len")], [PLAIN_RESP], cap,
-                                            9 if not big else 11, 1, "{TRUE}", True, True, closers='{"cclose"}'), "graph", dict(max_len=40)))
+                                            8 if not big else 10, 1, "{TRUE}", True, True, closers='{"cclose"}', constraint="CONSTRAINT AuthDeepOK"), "graph", dict(max_len=40)))
     #  (b) forwarding: control alphabet x response alphabet x close patterns
     if big:
-        jobs.append(("replay_forward", consts(small_reqs[:6], CTRL_RESPS[:5], cap, 3, 2, "{FALSE}", True, True), "graph", dict(max_len=40, workers=4, timeout=3000)))
+        jobs.append(("replay_forward", consts(small_reqs[:7], CTRL_RESPS[:5], cap, 3, 2, "{FALSE}", True, True), "graph", dict(max_len=40, workers=4, timeout=3000)))
         jobs.append(("replay_forward_wide", consts(CTRL_REQS, CTRL_RESPS, cap, 2, 2, "{FALSE}", True, True), "graph", dict(max_len=40, workers=4, timeout=3000)))
         jobs.append(("replay_forward_resp", consts(small_reqs[:4], CTRL_RESPS, cap, 2, 3, "{FALSE}", True, True), "graph", dict(max_len=40, workers=4, timeout=3000)))
     else:
         jobs.append(("replay_forward", consts(small_reqs[:6], CTRL_RESPS[:6], cap, 2, 2, "{FALSE}", True, True), "graph", dict(max_len=40, workers=3)))
     #  (c) deep pipelining: queue full, back-pressure, release
     deep_reqs = [PLAIN_REQ, req(m="HEAD", hs=("ua",))]
-    jobs.append(("replay_deep", consts(deep_reqs if big else deep_reqs[:1], [PLAIN_RESP, CTRL_RESPS[1]] if big else [PLAIN_RESP], cap, cap + (3 if big else 2),
-                                       3 if big else 2, "{FALSE}", True, True, closers=lat if big else '{"ow"}'), "graph", dict(max_len=6 * cap + 60)))
+    jobs.append(("replay_deep", consts(deep_reqs[:1], [PLAIN_RESP, CTRL_RESPS[1]] if big else [PLAIN_RESP], cap, cap + (3 if big else 2),
+                                       4 if big else 2, "{FALSE}", True, True, closers=lat if big else '{"ow"}'), "graph", dict(max_len=6 * cap + 60)))
+    if big:
+        jobs.append(("replay_deep_head", consts(deep_reqs[1:], [PLAIN_RESP], cap, cap + 2, 2, "{FALSE}", True, True, closers='{"ow"}'), "graph",
+                     dict(max_len=6 * cap + 60)))
 
     # (3) the message lattice, one exchange per message: requests (authentication off: every credential class is
     #     forwardable and must be stripped; on: refused unless good, then the plain follow-up "q1" is forwarded) and
@@ -202,27 +205,43 @@ def run(tier, seed, replay):
             rs = [PLAIN_REQ] + rnd.sample(keep_req, 7)
             ss = [PLAIN_RESP, CTRL_RESPS[1]] + rnd.sample(keep_resp, 6)
             c = consts(rs, ss, cap, 20, 24, "{FALSE}", True, True, closers="{}")
-        jobs.append(("simulate_%d" % k, c, "sim", dict(num=60 if not big else 300, walks=150 if not big else 1000, seed=seed * 100 + k)))
+        jobs.append(("simulate_%d" % k, c, "sim", dict(num=60 if not big else 300, walks=150 if not big else 500, seed=seed * 100 + k)))
 
     only = [x for x in os.environ.get("C16_ONLY", "").split(",") if x]   # development aid: run a subset of the jobs
     if only:
         jobs = [j for j in jobs if any(j[0].startswith(x) for x in only)]
         v.notes.append("C16_ONLY=%s: only %s ran" % (",".join(only), [j[0] for j in jobs]))
 
+    def slim(b):
+        # the driver compares observations at quiescent model states only
+        b["steps"] = [st if (st.get("o") or {}).get("q") else {"a": st["a"]} for st in b["steps"]]
+        return b
+
+    cap_paths = None if not big else 6000   # per graph; edges left uncovered are reported in the evidence
+
     def run_job(job):
+        # one retry: on a crowded machine a JVM is occasionally killed (OOM killer) through no fault of the model
+        try:
+            return run_job_once(job)
+        except vlib.Broken as e:
+            vlib.log("[c16] job %s failed (%s); retrying once" % (job[0], str(e).splitlines()[0][:200]))
+            time.sleep(20)
+            return run_job_once(job)
+
+    def run_job_once(job):
         name, c, kind, opt = job
         if kind == "design":
             r = vlib.tlc(SPEC, "MCForwarder", "MCForwarder.cfg", c, workers=opt.get("workers", 4), timeout=opt.get("timeout", 900), edges=False,
-                         heap="12g" if big else "6g")
+                         heap="8g" if big else "6g")
             return name, c, r, []
         if kind == "graph":
             r = vlib.tlc(SPEC, "MCForwarder", "MCForwarder.cfg", c, workers=opt.get("workers", 2), timeout=opt.get("timeout", 2400), edges=True, heap="3g")
             if r.violation:
                 return name, c, r, []
             g = vlib.Graph(r)
-            paths, left = g.cover(seed=seed, max_len=opt["max_len"])
+            paths, left = g.cover(seed=seed, max_len=opt["max_len"], max_paths=cap_paths)
             r.edges = []
-            return name, c, r, ([g.behaviour(p) for p in paths], len(g.edges), left)
+            return name, c, r, ([slim(g.behaviour(p)) for p in paths], len(g.edges), left)
         r = vlib.tlc(SPEC, "MCForwarder", "MCForwarder.cfg", c, workers=1, timeout=2400, edges=True, simulate="num=%d" % opt["num"], depth=120,
                      seed=opt["seed"], edge_limit=400000, heap="2g")
         if r.violation:
@@ -230,7 +249,7 @@ def run(tier, seed, replay):
         g = vlib.Graph(r)
         w = g.random_walks(opt["walks"], 120, seed=opt["seed"])
         r.edges = []
-        return name, c, r, ([g.behaviour(p) for p in w], len(g.edges), None)
+        return name, c, r, ([slim(g.behaviour(p)) for p in w], len(g.edges), None)
 
     from concurrent.futures import ThreadPoolExecutor
     par = max(1, min(len(jobs), int(os.environ.get("VERIF_MAX_WORKERS", "16")) // 2))
